@@ -25,6 +25,7 @@ def c1(ctx):
 
 def c2(ctx):
     notes.beat_formula(ctx)
+    notes.keysound_extraction(ctx)
 
 
 def c4(ctx):
